@@ -201,21 +201,25 @@ def discharge(ctx, F, b, bi, t, cname):
         idx = strip_casts(args[-1])
         ok = any(f[0] == "cmp" and f[1] == "Lt" and strip_casts(f[2]) == idx and is_word_count_of_len(strip_casts(f[3])) for f in fs)
         return (ok, "guarded", "word_unchecked(%s) dominated by index < split_offset(len).0 (a full word below the last one): %s" % (tstr(idx), ok))
-    if last == "rank_unchecked":
+    if last == "rank_unchecked" and len(args) == 3:
         parent, idx = core(args[1]), strip_casts(args[2])
         ok = any(f[0] == "cmp" and f[1] == "Lt" and strip_casts(f[2]) == idx and m(Call(lambda n_: n_.endswith("BitVec<'a>>::len") or n_ == "ops::BitVec::len", Bind("p")), f[3], {"p": parent}) for f in fs)
         sup = self_path(strip_unwrap(args[0])) == ["rank"]
         return (ok and sup and parent[:2] == ("param", 0), "guarded", "rank_unchecked(self.rank, self, %s) dominated by index < self.len(): %s" % (tstr(idx), ok))
-    if last == "select_unchecked":
+    if last == "select_unchecked" and len(args) == 3 and "SelectSupport" in cname:
         parent, r = core(args[1]), strip_casts(args[2])
         targ = [a for a in t["callee"].get("args", []) if a.startswith("bit_vector::")]
         trans = targ[0] if targ else "?"
         ok = False
+        from guards import canon
+        want = canon(F, ("call", "<%s as bit_vector::Transformation>::count_ones" % trans, (parent,), (), "bit_vector::Transformation::count_ones"))
         for f in fs:
             if f[0] == "cmp" and f[1] == "Lt" and strip_casts(f[2]) == r:
                 c = core(f[3])
                 if c[0] == "call" and c[1] == "<%s as bit_vector::Transformation>::count_ones" % trans and core(c[2][0]) == parent:
                     ok = True
+                elif canon(F, c) == want:
+                    ok = True       # the same quantity spelled differently (`self.count_zeros()` for Complement::count_ones(self))
         field = {"bit_vector::Identity": ["select"], "bit_vector::Complement": ["select_zero"]}.get(trans)
         sup = self_path(strip_unwrap(args[0])) == field
         return (ok and sup and parent[:2] == ("param", 0), "guarded",
@@ -339,7 +343,10 @@ def ledger(ctx, F, tag):
             res = discharge(ctx, F, b, bi, t, cname)
             if res is not None:
                 ok, how, detail = res
-                ctx.ob("C08.R1.unsafe-site-discharged", key + tag, where, ok, how, detail)
+                # a new site whose arguments are the caller's own, never looked at on the way, is positively unguarded
+                from guards import untested_params
+                bare = (not ok) and untested_params(b, bi, [b.term_of_operand(a) for a in t["args"][1:]])
+                ctx.ob("C08.R1.unsafe-site-discharged", key + tag, where, ok, how, detail, positive=bare)
                 continue
             # sites whose discharge is a rule of another section of this check
             if cname.startswith("std::slice::from_raw_parts") or cname.endswith("::set_len") or cname.startswith("libc::"):
@@ -368,6 +375,9 @@ def check_rest(ctx, F, tag, cfg):
 
     # ---------------- R3 raw reaches unsafe
     entries, an = c09.run_analysis(F)
+    for k in an.sink_inventory():
+        ctx.site("C08.R3.raw-value-reaches-unsafe|%s%s" % (k, tag))
+    known = lambda key: ctx.site_known("C08.R3.raw-value-reaches-unsafe|%s%s" % (key, tag))
     for key, a in sorted(an.unsafe_raw.items()):
         last = a["callee"].split("::")[-1].split("<")[0]
         if last in DELEGATED_CONTRACTS:
@@ -377,13 +387,14 @@ def check_rest(ctx, F, tag, cfg):
             pos = {(i if i >= 0 else a["nargs"] + i) for i in constrained}
             if not (set(a["arg_idx"]) & pos):
                 continue    # the unbounded value is data (a value to store), not an argument the contract constrains
-        ctx.ob("C08.R3.raw-value-reaches-unsafe", key + tag, a["where"], False, "raw-value-propagation", a["detail"] + " [reached via %s]" % a["chain"])
+        ctx.ob("C08.R3.raw-value-reaches-unsafe", key + tag, a["where"], False, "raw-value-propagation", a["detail"] + " [reached via %s]" % a["chain"], positive=known(key))
     for key, a in sorted(an.alarms.items()):
         # an unbounded raw value in checked arithmetic wraps in release builds; if the function also contains unsafe calls the wrapped value flows on
         has_unsafe = any(t["callee"].get("unsafe") and not t["exp"] for _, t in F.body(a["fn"]).calls())
         if has_unsafe and a["kind"] == "overflow" and not any(key.startswith(p) for p in c09.EXEMPT):
             ctx.ob("C08.R3.raw-value-reaches-unsafe", key + tag, a["where"], False, "raw-value-propagation",
-                   "wrapped arithmetic on a caller-supplied value in a function that performs unsafe accesses (release build: the wrapped value passes the guard): " + a["detail"])
+                   "wrapped arithmetic on a caller-supplied value in a function that performs unsafe accesses (release build: the wrapped value passes the guard): " + a["detail"],
+                   positive=known(key))
     ctx.ob("C08.R3.raw-value-reaches-unsafe", "summary" + tag, "src/", True, "raw-value-propagation",
            "%d functions reached with raw values from %d total entry points; unsafe callees receiving an unbounded raw value: %d" % (len(an.raw_params), len(entries), len(an.unsafe_raw)), nontrivial=False)
 
@@ -396,20 +407,30 @@ def check_rest(ctx, F, tag, cfg):
 def check_cursors(ctx, F, tag, prefix="C08.R4"):
     OI = "bit_vector::OneIter"
     n = 0
+    from guards import canon
     for b in F.all_bodies():
+        k_fn = 0
         for bi, si, st in b.stmts():
             if st["s"] == "assign" and st["rv"]["r"] == "agg" and st["rv"].get("def") == OI:
                 n += 1
+                k_fn += 1
                 ops = dict(zip(st["rv"]["fields"], st["rv"]["ops"]))
                 parent = core(b.term_of_operand(ops["parent"]))
                 lim = core(b.term_of_operand(ops["limit"]))
                 nxt = core(b.term_of_operand(ops["next"]))
+                trans = [a for a in st["rv"].get("args", []) if a.startswith("bit_vector::")]
+                # the same quantities spelled differently count (`self.count_zeros()` for Complement::count_ones(self))
+                want_count = [canon(F, ("call", "<%s as bit_vector::Transformation>::count_ones" % tr, (parent,), (), "bit_vector::Transformation::count_ones")) for tr in trans]
+                want_len = canon(F, ("call", "<bit_vector::BitVector as ops::BitVec<'a>>::len", (parent,), (), "ops::BitVec::len"))
 
                 def is_limit(t):
-                    return t[0] == "tuple" and len(t[1]) == 2 and m(Call(lambda n_: n_.endswith("Transformation>::count_ones") or n_ == "bit_vector::Transformation::count_ones", Bind("p")), t[1][0], {"p": parent}) and \
+                    if not (t[0] == "tuple" and len(t[1]) == 2):
+                        return False
+                    by_name = m(Call(lambda n_: n_.endswith("Transformation>::count_ones") or n_ == "bit_vector::Transformation::count_ones", Bind("p")), t[1][0], {"p": parent}) and \
                         m(Call(lambda n_: n_.endswith("BitVec<'a>>::len") or n_ == "ops::BitVec::len", Bind("p")), t[1][1], {"p": parent})
+                    return by_name or (canon(F, t[1][0]) in want_count and canon(F, t[1][1]) == want_len)
                 okl = is_limit(lim)
-                okn = False
+                okn = None          # unknown provenance is undecided; a recognised form with the wrong rank / parent is a violation
                 how = "?"
                 if nxt[0] == "tuple" and len(nxt[1]) == 2:
                     a0, a1 = core(nxt[1][0]), core(nxt[1][1])
@@ -417,12 +438,15 @@ def check_cursors(ctx, F, tag, prefix="C08.R4"):
                         okn, how = True, "(0, 0)"
                     elif is_limit(nxt):
                         okn, how = True, "limit (empty iterator)"
-                    elif a1[0] == "call" and a1[1].endswith("::select_unchecked") and core(a1[2][2]) == a0 and core(a1[2][1]) == parent:
-                        okn, how = True, "(rank, select_unchecked(parent, rank))"
+                    elif a1[0] == "call" and a1[1].endswith("::select_unchecked"):
+                        okn, how = core(a1[2][2]) == a0 and core(a1[2][1]) == parent, "(rank, select_unchecked(parent, rank))"
+                    elif any(isinstance(x, tuple) and x and x[0] == "call" and x[1].endswith("::select_unchecked") for x in subterms(a1)):
+                        okn, how = False, "a select_unchecked result that was altered afterwards"
                 if b.name == "<bit_vector::OneIter<'a, T> as std::clone::Clone>::clone":
                     continue
-                ctx.ob(prefix + ".cursor-provenance", "%s|OneIter#%d%s" % (b.name, n, tag), loc(st["sp"]), okl and okn, "term-provenance",
-                       "limit = (T::count_ones(parent), parent.len()): %s; next = %s: %s" % (okl, how, okn))
+                verdict = False if (okn is False or not okl) else (True if okn else None)
+                ctx.ob(prefix + ".cursor-provenance", "%s|OneIter#%d%s" % (b.name, k_fn, tag), loc(st["sp"]), verdict, "term-provenance",
+                       "limit = (T::count_ones(parent), parent.len()): %s; next = %s: %s" % (okl, how, "not a recognised construction (position computed some other way)" if okn is None else okn))
     ctx.count("one-iter-aggregates" + tag, n)
     ctx.floor("one-iter-aggregates" + tag, 3)
     # next/limit stored only inside the iterator's own impls
